@@ -65,6 +65,8 @@ PendCounts == (0..MaxPending) \cup (IF AllowForever THEN {-1} ELSE {})
 Scripts == [readyIn : PendCounts, ready : {"ok", "sigerr", "foreign"},
             pendIn : PendCounts, answer : {"ok", "sigerr", "foreign"},
             errKind : ProviderSigKinds]
+\* (trace validation also sees foreign error TYPES in errKind - "io_timedout", ... - which the pipeline must
+\*  treat exactly like any other foreign error)
 
 P(label) == <<label, 0>>
 None == [tag |-> "none"]
